@@ -41,7 +41,7 @@ SPEC = {
             "observation records, transitions = commands and steps applied; a case is distinct by (scenario, state, words) "
             "or (scenario, start state, operation sequence); part 1 cases count as non-trivial only when the command body "
             "was reached (not rejected by the dispatcher or the argument-count check)"
-            " Later additions: scenario E (modifycvcs against the same coefficient in the configuration: value, applied force, total force, gradients) and scenario F (a group fitted on itself or on a separate fitting group: engine forces = applied force x reported gradients).",
+            " Later additions: scenario E (modifycvcs against the same coefficient in the configuration: value, applied force, total force, gradients, energy of the restraint; also for a periodic component) and scenario F (a group fitted on itself or on a separate fitting group: engine forces = applied force x reported gradients).",
     "assumptions": ["commands are issued through run_colvarscript_command()/get_colvarscript_result() with the error state "
                     "cleared before each call, as the Tcl wrapper does; no Tcl interpreter, no VMD (cv delete, cv molid, "
                     "cv frame only in their refusing form)",
